@@ -78,6 +78,8 @@ func faultOpts(prop string, thorough bool) (GenOpts, faultEmphasis) {
 	case "C04":
 		em.ConnPhase = 8
 		em.FreshChance = 0
+		o.MaxFiles = 3 // (two rotations: a file can be entered and left without a transaction in it)
+		o.UnitWeights[uRotate] = 2
 	case "C05":
 		em.ConnPhase = 4
 		em.Timeout = true
